@@ -90,6 +90,27 @@ def gen_case(rnd, tier):
     return spec, ins
 
 
+def directed_cases(tier):
+    """every two- and one-operand opcode on every register size with asymmetric operands (9 and 5, then 200 and 77)"""
+    out = []
+    groups = [TWO[0:4], TWO[4:8], TWO[8:], ONE]
+    for rsize in [8, 16, 32] + ([64] if tier == "thorough" else []):
+        for gi, grp in enumerate(groups):
+            prog = []
+            for op in grp:
+                a, b = ((9, 5) if (gi + len(prog)) % 2 == 0 else (200, 77))
+                if op in ONE:
+                    prog += ["rset r1 %d" % a, "%s r1" % op, "rset r2 0", "%s r2" % op]
+                else:
+                    prog += ["rset r2 %d" % a, "rset r3 %d" % b, "%s r2 r3" % op]
+            prog.append("j %d" % len(prog))
+            ops = sorted(set(l.split()[0] for l in prog) | {"nop", "j"})
+            spec = {"rsize": rsize, "procs": [{"arch": {"R": 2, "N": 0, "M": 0, "L": 0, "O": 5, "ops": ops, "mode": "ha", "rsize": rsize}, "prog": prog}],
+                    "inputs": 0, "outputs": 0, "bonds": []}
+            out.append((spec, []))
+    return out
+
+
 def dedupe(seq):
     out = []
     for s in seq:
@@ -200,7 +221,7 @@ def run(res, a):
     C.build_harness()
     rnd = random.Random(a.seed)
     n = 24 if a.tier == "quick" else 300
-    cases = [gen_case(rnd, a.tier) for _ in range(n)]
+    cases = directed_cases(a.tier) + [gen_case(rnd, a.tier) for _ in range(n)]
     if a.replay:
         rp = json.load(open(a.replay))["replay"]
         cases = [(rp["machine"], rp["inputs"])]
